@@ -9,7 +9,9 @@ RULE = ("generated declaration families stratified over every Int width 1..17,24
         "all sizing modes, sequences, optionals, references) x value-first valid encodings x EVERY truncation point of each "
         "encoding (capped at 64 per encoding) + one-byte corruptions + random strings; oracle: if unpack returns a packet the "
         "reference parser (which checks that every read lies inside the input) must accept the same input with equal values, "
-        "and silent=True returns None exactly when unpack raises. Non-trivial = a truncation point strictly inside a "
+        "and silent=True returns None exactly when unpack raises. Plus coverage-guided byte fuzzing (atheris/libFuzzer, "
+        "empty and seeded corpus) of unpack over a fixed catalogue of declarations with the same differential inside the target. "
+        "Non-trivial = a truncation point strictly inside a "
         "non-empty value-bearing field of the full encoding; distinct = (declaration source, truncated input)")
 ASSUMPTIONS = ["reference parser bv/ir.py is trusted (independent positional decoding, explicit bounds checks)",
                "inputs whose control fields drive the cursor >256 bytes beyond the input or >5000 elements are skipped (unspecified)"]
@@ -19,7 +21,10 @@ WIDTHS = list(range(1, 18)) + [24, 32]
 
 
 def shards(tier):
-    return [{"k": i} for i in range(16 if tier == "quick" else 64)]
+    out = [{"k": i} for i in range(16 if tier == "quick" else 64)]
+    # E7: coverage-guided byte fuzzing (atheris) of unpack over a fixed catalogue, oracle inside the target
+    out += [{"k": 1000 + i, "atheris": True, "seeded_corpus": bool(i % 2)} for i in range(2 if tier == "quick" else 8)]
+    return out
 
 
 @st.composite
@@ -133,7 +138,42 @@ def run_case(ctx, c):
         live.close()
 
 
+def run_atheris(shard, ctx):
+    import subprocess, sys, os, json, re, tempfile
+    verif = os.path.dirname(os.path.dirname(os.path.dirname(os.path.abspath(__file__))))
+    env = dict(os.environ, PYTHONPATH=os.path.join(verif, ".deps"))
+    try:
+        subprocess.check_call([sys.executable, "-c", "import atheris"], env=env, stdout=subprocess.DEVNULL, stderr=subprocess.DEVNULL)
+    except Exception:
+        ctx.count("atheris", "unavailable (tools/setup.py installs it from the offline wheelhouse)")
+        ctx.notes.append("atheris not importable: the coverage-guided part of C04 was skipped")
+        return
+    runs = 40000 if ctx.tier == "quick" else 3000000
+    out = os.path.join(os.getcwd(), "fuzz_violation.json")
+    args = [sys.executable, "-m", "bv.fuzz_unpack", out, "-runs=%d" % runs, "-seed=%d" % (ctx.seed % (2 ** 31) or 1), "-max_len=64"]
+    if shard["seeded_corpus"]:
+        args.append(os.path.join(os.getcwd(), "corpus"))
+    p = subprocess.run(args, env=env, cwd=verif, capture_output=True, text=True)
+    m = re.search(r"Done (\d+) runs", p.stderr)
+    done = int(m.group(1)) if m else 0
+    ctx.ev(done)
+    ctx.count("atheris_execs", "seeded corpus" if shard["seeded_corpus"] else "empty corpus", done)
+    cov = re.findall(r"cov: (\d+)", p.stderr)
+    if cov:
+        ctx.count("atheris_final_edge_coverage", None, int(cov[-1]))
+    if os.path.exists(out):
+        from bv.runner import unjson
+        case = unjson(json.load(open(out)))
+        case["sig"] = "fuzz:" + str(case.get("sig"))
+        ctx.violation(case)
+    elif p.returncode not in (0,):
+        raise RuntimeError("atheris target failed: rc=%s %s" % (p.returncode, p.stderr[-600:]))
+    ctx.nt(("atheris", shard["seeded_corpus"], done))
+
+
 def run_shard(shard, ctx):
+    if shard.get("atheris"):
+        return run_atheris(shard, ctx)
     run_given(ctx, strat_cases(), lambda c: run_case(ctx, c), 150 if ctx.tier == "quick" else 1500)
 
 
